@@ -966,6 +966,12 @@ def _gen_package(rnd, n_parts):
             payload[n] = ('<?xml version="1.0" encoding="UTF-8" standalone="yes"?>\n<r xmlns="urn:x" a="%d"><c>%s</c></r>' % (rnd.randint(0, 9), n)).encode()
         else:
             payload[n] = bytes(rnd.randint(0, 255) for _ in range(rnd.randint(0, 40)))
+    # distinct parts may hold identical bytes (the same picture stored twice by another producer): they stay distinct parts
+    binary = [n for n in names if not ctype[n].endswith("xml")]
+    for _ in range(rnd.randint(0, 2)):
+        if len(binary) >= 2:
+            a_, b_ = rnd.sample(binary, 2)
+            payload[b_] = payload[a_] = payload[a_] or b"\x89PNG same bytes"
     edges = {u: [] for u in ["/"] + names}
     for u in edges:
         for _ in range(rnd.randint(0, 3) if u != "/" else rnd.randint(1, 3)):
@@ -1067,6 +1073,30 @@ def _native_roundtrip(tier="quick", seed=0):
         if b and not bad:
             bad = b
     rec("C01.native.generated_packages_open_save_compare", bad)
+    # the traversal contracts (iter_parts / iter_rels: "each part exactly once") treat the visited set as a set of object identities:
+    # that is what the code gets as long as no part class defines its own equality or hash
+    import pptx  # noqa: F401  (registers the part classes)
+    from pptx.opc.package import Part, PartFactory
+
+    from pptx.opc.packuri import PackURI as _PU
+
+    merged, made = [], 0
+    for ct_, cls_ in sorted({"application/x-any": Part, **PartFactory.part_type_for}.items()):
+        for blob_ in (b"<a:x xmlns:a='urn:x'/>", b"\x89PNG\r\n\x1a\n same bytes"):
+            try:
+                a_ = cls_.load(_PU("/d/p1.bin"), ct_, None, blob_)
+                b_ = cls_.load(_PU("/d/p2.bin"), ct_, None, blob_)
+            except Exception:
+                continue
+            made += 1
+            try:
+                if a_ == b_ or len({a_, b_}) != 2:
+                    merged.append("%s (%s)" % (cls_.__name__, ct_))
+            except Exception as e:
+                merged.append("%s (%s): %r" % (cls_.__name__, ct_, e))
+            break
+    rec("C01.assumption.parts_are_compared_by_identity", "two distinct parts holding the same bytes compare equal / collapse in a set for %s: the visited set of iter_parts / iter_rels then merges them"
+        % sorted(set(merged))[:4] if merged else (None if made else "no part class could be instantiated"))
     # directory form and file path form
     import shutil
     import tempfile
